@@ -1,6 +1,6 @@
 (* RetentionCheck.v — executable comparison of the retention model with observations of
    the real retention pass (used by the generated case files of C14). *)
-From SigM Require Import Base Retention RetentionMem RetentionConc RetentionTime.
+From SigM Require Import Base Retention RetentionMem RetentionConc RetentionTime RetentionPaths.
 Open Scope N_scope.
 
 (* the iteration order the real run showed (directories in the order they were removed) *)
@@ -242,4 +242,42 @@ Fixpoint check_zone_cases (cases : list (zone * Z * N * N * Z * Z)) (idx : nat) 
     (if (horizon_of h (mktime now z) =? r) && (horizon (Z.to_N now) h =? r) then [] else [(2 * idx)%nat])
     ++ (if (t_inst (t_adddate_days (mktime now z) (- days)) =? ad)%Z then [] else [(2 * idx + 1)%nat])
     ++ check_zone_cases t (S idx)
+  end.
+
+(* ---- the segment directory derived from the segment key (RetentionPaths.v) ---- *)
+Definition opt_pstr_eqb (a b : option pstr) : bool :=
+  match a, b with
+  | Some x, Some y => bytes_eqb x y
+  | None, None => true
+  | _, _ => false
+  end.
+
+(* correspondence: one case = (data path, host id, index, stream id, segment number as digits,
+   observed result of GetSegBaseDirFromFilename on config.GetSegKey(...): Some dir / None = error,
+   observed config.GetSegKey).  Index 2i: the model of the key builder differs from the key;
+   2i+1: the model of the helper differs from the observed result. *)
+Fixpoint check_segdir_cases (cases : list (pstr * pstr * pstr * pstr * pstr * option pstr * pstr)) (idx : nat) : list nat :=
+  match cases with
+  | [] => []
+  | (data, host, ix, sid, sfx, got, key) :: t =>
+    (if bytes_eqb (seg_key data host ix sid sfx) key then [] else [(2 * idx)%nat])
+    ++ (if opt_pstr_eqb (seg_base_dir key) got then [] else [(2 * idx + 1)%nat])
+    ++ check_segdir_cases t (S idx)
+  end.
+
+(* arbitrary file names (cut keys, files below a segment directory, no "/final/" at all): the model of the helper,
+   error returns included, against the observed result *)
+Fixpoint check_segdir_raw (cases : list (pstr * option pstr)) (idx : nat) : list nat :=
+  match cases with
+  | [] => []
+  | (name, got) :: t =>
+    (if opt_pstr_eqb (seg_base_dir name) got then [] else [idx]) ++ check_segdir_raw t (S idx)
+  end.
+
+(* GetSegBaseDirFromSegKey (what the pass uses since e0ecac0): keys of the builder and arbitrary strings *)
+Fixpoint check_segdir_key (cases : list (pstr * option pstr)) (idx : nat) : list nat :=
+  match cases with
+  | [] => []
+  | (name, got) :: t =>
+    (if opt_pstr_eqb (seg_base_dir_key name) got then [] else [idx]) ++ check_segdir_key t (S idx)
   end.
